@@ -86,6 +86,8 @@ type FnCtx struct {
 type Frame struct {
 	lastValRef map[string]*ssa.BasicBlock // localsAt: block of the last value debug ref per source name (reset per call)
 	fc       *FnCtx
+	hintCallRes []SV // results of the call a `hint after` is attached to (bound as callresult, callresult<i>)
+	noPanicOld string // ext_nopanic.go: the `nopanic when` condition of the root function, evaluated in the entry state ("" = none)
 	fn       *ssa.Function
 	spec     *FuncSpec
 	prefix   string
@@ -990,12 +992,11 @@ func (fr *Frame) localsBefore(in ssa.Instruction) map[string]func(*State) SV {
 				break
 			}
 			if phi, isPhi := x.(*ssa.Phi); isPhi {
-				// a source variable merged at the start of this block (`removing` after `if … { removing = f() }`): its phi carries
-				// the source name and no debug ref; without this the name would still denote the value bound before the branch
-				if phi.Comment != "" && !strings.HasPrefix(phi.Comment, "range") && !strings.Contains(phi.Comment, ".") && !strings.ContainsAny(phi.Comment, "&|") {
-					if pv, known := fr.vals[phi]; known {
-						out[phi.Comment] = func(*State) SV { return pv }
-					}
+				// a named phi of a dominating block (a variable assigned on several paths, e.g. `fresh` after an if/else or at a
+				// loop exit) IS the variable's value from here on: it overrides the debug refs of the assignments that flow into it
+				if sv, known := fr.vals[phi]; known && phi.Comment != "" && !strings.HasPrefix(phi.Comment, "range") {
+					v := sv
+					out[phi.Comment] = func(*State) SV { return v }
 				}
 				continue
 			}
